@@ -404,6 +404,30 @@ fn exec_ell(fields: &[&str]) -> String {
 
 /// one method of the `CoordinateTuple` trait on a tuple of 2, 3 or 4 elements:
 /// `TUP dim vals op args` prints the tuple afterwards and the value read, if any
+/// a tuple type of a user of the library: `N` elements, the three required methods and `new`, everything else
+/// from the trait's defaults
+#[derive(Clone, Copy)]
+pub struct UserTuple<const N: usize>(pub [f64; N]);
+impl<const N: usize> CoordinateTuple for UserTuple<N> {
+    fn new(fill: f64) -> Self {
+        UserTuple([fill; N])
+    }
+    fn nth_unchecked(&self, n: usize) -> f64 {
+        self.0[n]
+    }
+    fn set_nth_unchecked(&mut self, n: usize, value: f64) {
+        self.0[n] = value;
+    }
+    fn dim(&self) -> usize {
+        N
+    }
+}
+pub fn user_tuple<const N: usize>(v: &[f64]) -> UserTuple<N> {
+    let mut t = UserTuple([0.0; N]);
+    t.0.copy_from_slice(v);
+    t
+}
+
 fn tup_op<T: CoordinateTuple + Copy>(mut t: T, op: &str, a: &[f64]) -> String {
     let mut read: Vec<f64> = vec![];
     match (op, a.len()) {
@@ -418,6 +442,12 @@ fn tup_op<T: CoordinateTuple + Copy>(mut t: T, op: &str, a: &[f64]) -> String {
         ("set_xyzt", 4) => t.set_xyzt(a[0], a[1], a[2], a[3]),
         ("fill", 1) => t.fill(a[0]),
         ("update", _) => t.update(a),
+        ("scale", 1) => t = t.scale(a[0]),
+        ("dot", n) if n == t.dim() => {
+            let mut other = T::new(0.0);
+            other.update(a);
+            read.push(t.dot(other));
+        }
         _ => return "bad-case".to_string(),
     }
     let vals: Vec<String> = (0..t.dim()).map(|i| fbits(t.nth_unchecked(i))).collect();
@@ -436,6 +466,9 @@ fn exec_tup(fields: &[&str]) -> String {
         ("3", 3) => tup_op(Coor3D([v[0], v[1], v[2]]), fields[2], &a),
         ("4", 4) => tup_op(Coor4D([v[0], v[1], v[2], v[3]]), fields[2], &a),
         ("p", 2) => tup_op((v[0], v[1]), fields[2], &a),
+        ("1", 1) => tup_op(user_tuple::<1>(&v), fields[2], &a),
+        ("5", 5) => tup_op(user_tuple::<5>(&v), fields[2], &a),
+        ("6", 6) => tup_op(user_tuple::<6>(&v), fields[2], &a),
         _ => "bad-case".to_string(),
     }
 }
